@@ -330,7 +330,7 @@ func (w *c14World) check(c *c14Client, kind int, disconnectedIncl bool) {
 		}
 	}
 	wantUpd := 0
-	if incl != 0 && ((kind == c14KindConnect && confs <= n) || kind == c14KindRegister) {
+	if incl != 0 && ((kind == c14KindConnect && confs <= n && !c.done) || kind == c14KindRegister) {
 		wantUpd = 1
 	}
 	if kind == c14KindOther {
@@ -339,7 +339,10 @@ func (w *c14World) check(c *c14Client, kind int, disconnectedIncl bool) {
 		// (correct, checked above) remaining count once more.
 		vAssert(nUpd <= 1, "more than one Updates event during another client's registration")
 	} else {
-		vAssert(nUpd == wantUpd, "number of Updates events differs from the reference chain")
+		// a request that lnd no longer tracks (Done sent, or the including
+		// block was already at the safety limit at registration) gets no
+		// further updates when a shallow reorg lets the count pass by again.
+		vAssert(nUpd == wantUpd || (kind == c14KindConnect && c.finalAtReg && nUpd == 0), "number of Updates events differs from the reference chain")
 	}
 	if nUpd == 1 && confs < n {
 		vReach("update-pending")
